@@ -30,7 +30,8 @@ static __thread int in_worker;
  * name says what happened; the supervisor attributes the abort to the path and the replay reproduces it */
 static long wticks;
 static __attribute__((noinline)) void nonterminating_loop_in_worker_thread(void) { fprintf(stderr, "h_C18: more than %ld random draws inside one worker thread (%s)\n", vx_tick_ceiling, TICKKEY); abort(); }
-static void wtick(void) { if (__atomic_add_fetch(&wticks, 1, __ATOMIC_RELAXED) > vx_tick_ceiling) nonterminating_loop_in_worker_thread(); }
+static void wtick(void) { static int off = -1; if (off < 0) off = getenv("C18_NO_WTICK") != NULL;   /* calibration aid for the wall-clock rule, never set by run_check */
+  if (!off && __atomic_add_fetch(&wticks, 1, __ATOMIC_RELAXED) > vx_tick_ceiling) nonterminating_loop_in_worker_thread(); }
 double __wrap_rand_(void) { if (!in_worker) vx_tick(TICKKEY); else wtick(); return __real_rand_(); }
 int __wrap_randInt(int a, int b) { if (!in_worker) vx_tick(TICKKEY); else wtick(); return __real_randInt(a, b); }
 double __wrap_randDouble(double a, double b) { if (!in_worker) vx_tick(TICKKEY); else wtick(); return __real_randDouble(a, b); }
@@ -311,5 +312,6 @@ int main(int argc, char **argv) {
   vx_set_shard_depth(3);
   vx_set_dev_bound(1, 1);
   vx_expect_outcomes(500);
+  vx_timeout_is_violation("nonterm|wallclock|execution-does-not-return", 30);   /* termination IS the property here */
   return vx_main(argc, argv, "C18", body);
 }
